@@ -1,5 +1,14 @@
-"""Checker self-test: one-hunk variants of /repo (selftest/mutants.json) applied to a scratch copy under /tmp; the rule named in
-`expect` must fire there.  Also benign-edit controls (expect = []) that must leave the check silent."""
+"""Checker self-test (thorough tier): variants of /repo's current tree are analysed on scratch copies under /tmp.
+
+  * mutants   - selftest/mutants.json (one-hunk edits) and selftest/seeds.json (the patches under seeded/<id>/, produced by independent
+                sub-agents from the property text alone): the property's check must fire on the variant (with a key containing one of `expect`)
+  * controls  - selftest/benign.json: behaviour-preserving refactors (hand hunks or patches under selftest/benign/): the check must stay silent
+
+Nothing is executed: every variant is only compiled to MIR facts and run through the same rules.  A variant whose hunk / patch no longer
+applies to the current tree is reported as stale, not as a failure.  Scratch copies and their fact files are removed as soon as a variant
+has been analysed.
+"""
+import concurrent.futures
 import importlib
 import json
 import os
@@ -8,15 +17,33 @@ import subprocess
 import sys
 import tempfile
 
-from . import extract, facts, report
+from . import extract
 
 VERIF = extract.VERIF
+WORKERS = int(os.environ.get("S3SV_SELFTEST_WORKERS", "4"))
 
 
-def load_mutants(pid=None):
-    with open(os.path.join(VERIF, "selftest", "mutants.json")) as fh:
-        ms = json.load(fh)["mutants"]
-    return [m for m in ms if pid is None or pid in m["properties"]]
+def _load(name, key):
+    p = os.path.join(VERIF, "selftest", name)
+    if not os.path.exists(p):
+        return []
+    with open(p) as fh:
+        return json.load(fh)[key]
+
+
+def specs_for(pid=None):
+    out = []
+    for m in _load("mutants.json", "mutants"):
+        if pid is None or pid in m["properties"]:
+            out.append(dict(m, kind="hunk"))
+    for s in _load("seeds.json", "seeds"):
+        if pid is None or pid in s["caught_by"]:
+            out.append({"id": "seed:" + s["seed"], "kind": "patch", "patch": os.path.join("seeded", s["seed"], "patch.diff"),
+                        "properties": sorted(s["caught_by"]), "expect": s["caught_by"], "benign": False})
+    for c in _load("benign.json", "controls"):
+        if pid is None or pid in c["properties"]:
+            out.append(dict(c, kind="patch" if c.get("patch") else "hunk", benign=True))
+    return out
 
 
 def make_scratch():
@@ -28,88 +55,118 @@ def make_scratch():
     return d
 
 
-def apply_mutant(scratch, m):
-    p = os.path.join(scratch, m["file"])
-    s = open(p).read()
-    if s.count(m["old"]) < 1:
-        return False
-    s = s.replace(m["old"], m["new"], 1)
-    open(p, "w").write(s)
+def apply_variant(scratch, m):
+    if m["kind"] == "patch":
+        r = subprocess.run(["git", "apply", "--whitespace=nowarn", os.path.join(VERIF, m["patch"])], cwd=scratch, stdout=subprocess.PIPE, stderr=subprocess.STDOUT)
+        return r.returncode == 0
+    hunks = m.get("hunks") or [m]
+    for h in hunks:
+        p = os.path.join(scratch, h["file"])
+        s = open(p).read()
+        if s.count(h["old"]) < 1:
+            return False
+        s = s.replace(h["old"], h["new"], 1)
+        open(p, "w").write(s)
     return True
 
 
-def run_mutant(m, pids):
-    """returns {pid: (fired_keys, exit)} for the mutant on a scratch copy"""
+def worker_main(spec_json, slot):
+    """runs inside a subprocess: S3SV_REPO / S3SV_TARGET already point at the scratch tree / this worker's cargo target dir"""
+    from . import facts, report
+    m = json.loads(spec_json)
+    out = {}
+    factdir = None
+    try:
+        db = facts.load_db(list(extract.QUICK_CRATES))
+        factdir = db.dir
+        known = {k["key"] for k in report.load_known() if k.get("status") == "open"}
+        for pid in m["pids"]:
+            mod = importlib.import_module("s3sv.rules." + pid.lower())
+            chk = report.Check(pid, "quick", mod.META["level"], "", (), ())
+            try:
+                mod.run(chk, db, "quick")
+            except report.AnchorMissing as e:
+                chk.anchor_missing("R0", str(e))
+            out[pid] = sorted({i["key"] for i in chk.inst if not i["ok"] and i["key"] not in known})
+    except SystemExit as e:
+        out = {pid: ["BUILD-FAILED: %s" % e] for pid in m["pids"]}
+    finally:
+        if factdir and os.path.isdir(factdir) and os.path.basename(factdir) != extract.tree_hash("/repo"):
+            shutil.rmtree(factdir, ignore_errors=True)
+    print("S3SV-SELFTEST-RESULT " + json.dumps(out))
+
+
+def run_variant(m, pids, slot=0):
+    """{pid: [keys that fired]} for the variant, or None if it does not apply to the current tree"""
     scratch = make_scratch()
     try:
-        if not apply_mutant(scratch, m):
+        if not apply_variant(scratch, m):
             return None
-        old_repo = extract.REPO
-        extract.REPO = scratch
-        facts._DB = None
-        from . import model
-        model._MODEL = None
-        out = {}
-        try:
-            db = facts.load_db(list(extract.QUICK_CRATES), repo=scratch)
-            for pid in pids:
-                mod = importlib.import_module("s3sv.rules." + pid.lower())
-                chk = report.Check(pid, "quick", mod.META["level"], "", (), ())
-                try:
-                    mod.run(chk, db, "quick")
-                except report.AnchorMissing as e:
-                    chk.anchor_missing("R0", str(e))
-                known = {k["key"] for k in report.load_known() if k.get("status") == "open"}
-                fired = sorted({i["key"] for i in chk.inst if not i["ok"] and i["key"] not in known})
-                out[pid] = fired
-        except SystemExit as e:
-            out = {pid: ["BUILD-FAILED: %s" % e] for pid in pids}
-        finally:
-            extract.REPO = old_repo
-            facts._DB = None
-            model._MODEL = None
-        return out
+        env = dict(os.environ, S3SV_REPO=scratch, S3SV_TARGET=os.path.join(extract.CACHE, "target-w%d" % slot), S3SV_NO_EVIDENCE="1")
+        r = subprocess.run([sys.executable, "-m", "s3sv.selftest", "--worker", json.dumps({"pids": pids}), str(slot)], cwd=VERIF, env=env,
+                           stdout=subprocess.PIPE, stderr=subprocess.PIPE, text=True)
+        for line in r.stdout.splitlines():
+            if line.startswith("S3SV-SELFTEST-RESULT "):
+                return json.loads(line[len("S3SV-SELFTEST-RESULT "):])
+        return {pid: ["WORKER-FAILED: " + (r.stderr or r.stdout)[-300:]] for pid in pids}
     finally:
         shutil.rmtree(scratch, ignore_errors=True)
-        # facts of scratch trees are not worth keeping
-        
 
-def run_selftest(pid, verbose=True):
-    res = {"mutants_applied": 0, "mutants_detected": 0, "deaf": [], "stale": [], "controls_silent": 0, "controls_noisy": [], "details": []}
-    for m in load_mutants(pid):
-        r = run_mutant(m, [pid])
+
+def run_selftest(pid, verbose=True, only=None):
+    res = {"mutants_applied": 0, "mutants_detected": 0, "deaf": [], "stale": [], "controls_applied": 0, "controls_silent": 0, "controls_noisy": [], "details": []}
+    specs = [m for m in specs_for(pid) if not only or only in m["id"]]
+    slots = list(range(WORKERS))
+
+    def job(m):
+        slot = slots.pop()
+        try:
+            return m, run_variant(m, [pid], slot)
+        finally:
+            slots.append(slot)
+
+    with concurrent.futures.ThreadPoolExecutor(max_workers=WORKERS) as ex:
+        results = list(ex.map(job, specs))
+    for m, r in results:
         if r is None:
             res["stale"].append(m["id"])
+            if verbose:
+                print("selftest %s %s: STALE (does not apply to the current tree)" % (pid, m["id"]))
             continue
         fired = r[pid]
-        exp = m.get("expect", {}).get(pid)
         if m.get("benign"):
+            res["controls_applied"] += 1
             if fired:
                 res["controls_noisy"].append({"id": m["id"], "fired": fired[:4]})
             else:
                 res["controls_silent"] += 1
             if verbose:
-                print("selftest %s benign control %s: %s" % (pid, m["id"], "silent" if not fired else "NOISY %s" % fired[:3]))
+                print("selftest %s control %s: %s" % (pid, m["id"], "silent" if not fired else "NOISY %s" % fired[:3]))
             continue
+        exp = (m.get("expect") or {}).get(pid)
         res["mutants_applied"] += 1
-        hit = [k for k in fired if (exp is None or any(e in k for e in exp))]
+        hit = [k for k in fired if (not exp or any(e in k for e in exp))]
         if hit:
             res["mutants_detected"] += 1
         else:
-            res["deaf"].append(m["id"])
-        res["details"].append({"id": m["id"], "fired": fired[:4]})
+            res["deaf"].append({"id": m["id"], "fired_other": fired[:3]})
+        res["details"].append({"id": m["id"], "fired": (hit or fired)[:3]})
         if verbose:
             print("selftest %s mutant %s: %s %s" % (pid, m["id"], "DETECTED" if hit else "DEAF", (hit or fired)[:2]))
     return res
 
 
 if __name__ == "__main__":
+    if len(sys.argv) > 1 and sys.argv[1] == "--worker":
+        worker_main(sys.argv[2], int(sys.argv[3]))
+        sys.exit(0)
     pid = sys.argv[1].upper() if len(sys.argv) > 1 else None
     only = sys.argv[2] if len(sys.argv) > 2 else None
-    ms = load_mutants(pid)
-    for m in ms:
-        if only and only not in m["id"]:
-            continue
-        pids = [pid] if pid else m["properties"]
-        r = run_mutant(m, pids)
-        print(m["id"], "STALE" if r is None else json.dumps({k: v[:3] for k, v in r.items()}))
+    pids = [pid] if pid else sorted({p for m in specs_for(None) for p in m["properties"]})
+    bad = 0
+    for p in pids:
+        r = run_selftest(p, only=only)
+        print("selftest %s: %d/%d mutants detected, %d/%d controls silent, %d stale" % (p, r["mutants_detected"], r["mutants_applied"], r["controls_silent"],
+                                                                                    r["controls_applied"], len(r["stale"])))
+        bad += len(r["deaf"]) + len(r["controls_noisy"])
+    sys.exit(1 if bad else 0)
